@@ -190,34 +190,45 @@ def _objproj(o):
 
 def image_separation(ops, frac, M=None):
     """
-    smallest non-zero separation between any two symmetry images (periodic) of the given sites:
-    in fractional units (Euclidean norm of the fractional difference) if M is None, else in Angstrom.
-    Exactly coinciding images (special positions) are ignored (< 1e-9).
+    smallest separation between two distinct symmetry images (periodic) of the given sites: in fractional units
+    (Euclidean norm of the fractional difference) if M is None, else in Angstrom.  Exactly coinciding images of the
+    SAME site (a special position) are ignored; coinciding images of DIFFERENT sites count as separation 0.
     """
     from scipy.spatial import cKDTree
-
-    pts = []
-    for (R, t) in ops:
-        Rm = np.array(R, dtype=float).reshape(3, 3)
-        pts.append(np.mod(np.asarray(frac, dtype=float) @ Rm.T + np.array(t, dtype=float) / 12.0, 1.0))
-    P = np.vstack(pts)
-    P[P >= 1.0] = 0.0
-    best = np.inf
-    if M is None:
-        tree = cKDTree(P, boxsize=1.0 + 1e-15)
-        d, _ = tree.query(P, k=min(len(P), 1 + 4 * len(ops)))
-        d = np.atleast_2d(d)
-        nz = d[d > 1e-9]
-        return float(nz.min()) if nz.size else np.inf
     import itertools as it
 
+    frac = np.asarray(frac, dtype=float).reshape(-1, 3)
+    pts, parent = [], []
+    for (R, t) in ops:
+        Rm = np.array(R, dtype=float).reshape(3, 3)
+        pts.append(np.mod(frac @ Rm.T + np.array(t, dtype=float) / 12.0, 1.0))
+        parent.append(np.arange(len(frac)))
+    P = np.vstack(pts)
+    par = np.concatenate(parent)
+    P[P >= 1.0] = 0.0
+    kmax = min(len(P), 2 + 2 * len(ops))
+    best = np.inf
+
+    def scan(d, idx):
+        nonlocal best
+        d = np.atleast_2d(d)
+        idx = np.atleast_2d(idx)
+        same_site = par[idx] == par[:, None]
+        coincide = d < 1e-9
+        if (coincide & ~same_site).any():
+            best = 0.0
+        nz = d[~coincide]
+        if nz.size:
+            best = min(best, float(nz.min()))
+
+    if M is None:
+        tree = cKDTree(P, boxsize=1.0 + 1e-15)
+        d, idx = tree.query(P, k=kmax)
+        scan(d, idx)
+        return best
     C0 = P @ M
     tree = cKDTree(C0)
     for cell in it.product((-1, 0, 1), repeat=3):
-        C1 = (P + np.array(cell)) @ M
-        d, _ = tree.query(C1, k=min(len(P), 1 + 4 * len(ops)))
-        d = np.atleast_2d(d)
-        nz = d[d > 1e-9]
-        if nz.size:
-            best = min(best, float(nz.min()))
+        d, idx = tree.query((P + np.array(cell)) @ M, k=kmax)
+        scan(d, idx)
     return best
